@@ -34,7 +34,7 @@ func main() {
 		e.Emit(api)
 		const maxTimeouts = 2 // a hang is reported by the cases that saw it; do not spend the whole budget waiting
 		for i := 0; i < nSeq && timeouts < maxTimeouts; i++ {
-			s := genSeq(e.Rnd, focus, maxSteps)
+			s := genSeq(e.Rnd, focus, maxSteps, i)
 			obs, stopped := runSeq(s)
 			e.Emit(seqCase(s, obs, stopped))
 		}
